@@ -186,9 +186,10 @@ class DeviceConn:
     def _h_HelloRequest(self, msg: Any) -> None:
         if not self.cfg.answer_hello:
             return
-        self.send("HelloResponse", api_version_major=self.cfg.api_major, api_version_minor=self.cfg.api_minor,
-                  server_info=self.cfg.server_info,
-                  name=self.cfg.name if self.cfg.hello_name is None else self.cfg.hello_name)
+        fl = self.dev.flavour
+        minor = {"api-1.2": 2, "api-1.8": 8, "api-1.12": 12}.get(fl, self.cfg.api_minor)
+        name = "" if fl == "no-name-in-hello" else (self.cfg.name if self.cfg.hello_name is None else self.cfg.hello_name)
+        self.send("HelloResponse", api_version_major=self.cfg.api_major, api_version_minor=minor, server_info=self.cfg.server_info, name=name)
         if self.cfg.hello_extra is not None:
             self.cfg.hello_extra(self)
 
@@ -210,6 +211,8 @@ class DeviceConn:
 
     def _h_DeviceInfoRequest(self, msg: Any) -> None:
         info = {"name": self.cfg.name, "mac_address": "AA:BB:CC:DD:EE:FF", "esphome_version": "2024.9.0", **self.cfg.device_info}
+        if self.dev.flavour == "deep-sleep":
+            info.setdefault("has_deep_sleep", True)
         self.send("DeviceInfoResponse", **info)
 
     def _h_ListEntitiesRequest(self, msg: Any) -> None:
@@ -333,6 +336,7 @@ class DeviceConn:
         return [r["name"] or f"#{r['id']}" for r in self.received]
 
 
+ROTATE_FIRMWARE = False  # set by a check's shard(): the firmware flavour of default devices rotates (see SimDevice.__init__)
 AUTO_ROTATE = False      # set by a check's shard(): devices whose config leaves the chunking open get a policy by rotation
 _ROTATION = 0
 FORCED_POLICY: str | None = None   # set by `./check Cxx --replay` from the witness file
@@ -358,6 +362,12 @@ class SimDevice:
         self.proto = protoparse.load_api()
         self.conns: list[DeviceConn] = []
         self.on_accept: Callable[[DeviceConn], None] | None = None
+        # what kind of firmware answers (only where a check opted in, and only for devices whose hello the scenario left at its defaults): the
+        # content of HelloResponse / DeviceInfoResponse - no name in the hello (old firmware), an API minor version on the other side of the
+        # thresholds the client knows (1.2, 1.8) or newer than the client (1.12), a device that deep-sleeps - must not change what a property says
+        self.flavour = "current"
+        if ROTATE_FIRMWARE and self.cfg.api_major == 1 and self.cfg.api_minor == 10 and self.cfg.hello_name is None:
+            self.flavour = rotation.decide("device_firmware", ("current", "no-name-in-hello", "current", "api-1.2", "deep-sleep", "current", "api-1.12", "api-1.8"))
 
     def accept(self, sock: Any) -> DeviceConn:
         c = DeviceConn(self, sock)
